@@ -42,6 +42,10 @@ def main():
         "engines": [
             {"name": "hypothesis+pomrun", "path": "pbt/", "serves_properties": [c["property_id"] for c in checks],
              "kind_free_text": "Hypothesis 6.168 (python3-vt) generating models/selections/histories, executed by the C++ scenario interpreter engine/runner/pomrun.cpp linked against a library rebuilt from /repo's working tree; oracle = independent numpy exact diagonalisation (pbt/oracle.py), metamorphic relations and reference models"},
+            {"name": "dispatcher-simulation", "path": "engine/runner/dispsim_core.hpp", "serves_properties": ["C16"],
+             "kind_free_text": "the real mpi_dispatcher.cpp compiled against a mock <boost/mpi.hpp> (engine/mock); the harness owns the step/delivery schedule: exhaustive breadth-first exploration of distinct states for small configurations, Hypothesis- and libFuzzer-generated schedules for larger ones; ASan+UBSan"},
+            {"name": "libFuzzer", "path": "engine/fuzz/", "serves_properties": ["C05", "C16", "C17"],
+             "kind_free_text": "clang 14 -fsanitize=fuzzer,address,undefined targets used by the thorough tiers: fuzz_algebra (own bit-string oracle), fuzz_dispatch (schedule bytes), fuzz_workflow (bytes -> model + workflow calls, in-process interpreter)"},
         ],
         "checks": checks,
         "not_applicable": na,
